@@ -146,7 +146,7 @@ PROPS["C03"] = {
 }
 
 PROPS["C18"] = {
-    "modules": ["C18"], "required_theorems": ["C18_holds", "step18", "step_run", "step_idle"], "monitors": ["C18"],
+    "modules": ["C18", "C18Self"], "required_theorems": ["C18_holds", "step18", "step_run", "step_idle", "C18_self_holds", "C18_self_run", "C18_self_reports", "calm_step_booting", "calm_check", "calm_update", "calm_damage"], "monitors": ["C18"],
     "fields": ["ret", "pj", "pd", "sj"],
     "campaign": camp([("lifecycle", 500), ("mixed", 400), ("rollback", 300), ("chaos", 200), ("damage", 150)],
                      [("lifecycle", 8000), ("mixed", 5000), ("rollback", 5000), ("chaos", 3000), ("damage", 3000), ("signing", 2000), ("release", 2000)]),
